@@ -204,3 +204,19 @@ pub fn c15_wrapped_raw_encoded_cmp() {
     enc_raw(2, 1);
     enc_raw(2, 2);
 }
+
+// @h prop=C15 tier=quick kind=proof inst="ReadSlice<MirrorRegion<u8>>, region-backed in two different regions at the SAME offsets" bounds="two regions, one item each at offsets (0, 2), symbolic contents" desc="comparison is by content: items of different regions that happen to occupy the same index range are equal only if their contents are"
+#[cfg_attr(kani, kani::proof, kani::unwind(6))]
+pub fn c15_slice_two_regions_same_offsets() {
+    let a = Bytes::<3>::any_len(2);
+    let b = Bytes::<3>::any_len(2);
+    let mut r1 = SR::default();
+    let mut r2 = SR::default();
+    let ia = r1.push(a.as_slice());
+    let ib = r2.push(b.as_slice());
+    assert!(ia == ib, "C15: harness expects identical index ranges");
+    assert_agrees(&r1.index(ia), &r2.index(ib), model_cmp(&a, &b));
+    cover!(model_cmp(&a, &b) != Ordering::Equal, "different contents at the same offsets");
+    sym::forget(r1);
+    sym::forget(r2);
+}
